@@ -290,6 +290,9 @@ impl SocketWorker {
                 self.handle_cqe(cqe);
             }
 
+            #[cfg(feature = "verif")]
+            aquatic_common::verif_fault_basic!("udp.socket.loop");
+
             self.send_buffers.reset_likely_next_free_index();
         }
     }
